@@ -175,7 +175,7 @@ func (fr *Frame) execInstr(in ssa.Instruction) {
 	case *ssa.MakeSlice:
 		ln := fr.toIdx(fr.val(x.Len), x.Len.Type())
 		cp := fr.toIdx(fr.val(x.Cap), x.Cap.Type())
-		fr.oblige("make", fr.locText(x.Pos(), "make"), and(ar.cmp("<=", idxT, ex.idx(0), ln), ar.cmp("<=", idxT, ln, cp), ar.cmp("<=", idxT, cp, ar.lit(idxT, pow2(maxLenBits)))), x.Pos())
+		fr.oblige("make", fr.locText(x.Pos(), "make"), and(ar.cmp("<=", idxT, ex.idx(0), ln), ar.cmp("<=", idxT, ln, cp), ar.cmp("<=", idxT, cp, ar.lit(idxT, pow2(maxLenBits+1)))), x.Pos())
 		a := ex.alloc(fr.st, "make")
 		fr.set(x, &Val{C: []*Val{sv(a), sv(ex.idx(0)), sv(ln), sv(cp)}})
 	case *ssa.MakeMap, *ssa.MakeChan:
@@ -246,7 +246,12 @@ func (fr *Frame) unop(x *ssa.UnOp) {
 	case token.MUL:
 		fr.nilCheck(x.X, x.Pos(), "load from")
 		l := ex.ls.of(x.Type())
-		fr.set(x, ex.load(fr.st, fr.val(x.X).T, l, ex.P.addrHint(x.X), true))
+		v := ex.load(fr.st, fr.val(x.X).T, l, ex.P.addrHint(x.X), true)
+		if _, isG := x.X.(*ssa.Global); isG && isLoggerIface(x.Type()) {
+			ex.q.assume(not(eq(v.C[0].T, "0")))
+			ex.trusted["package-level nazalog.Logger variables (Log) are non-nil"] = true
+		}
+		fr.set(x, v)
 	case token.NOT:
 		fr.set(x, sv(not(fr.val(x.X).T)))
 	case token.SUB:
